@@ -858,8 +858,10 @@ impl<'de, R: Read<'de>> Parser<R> {
 
     fn expect_ident(&mut self, ident: &[u8]) -> Result<()> {
         for c in ident {
-            if Some(*c) != self.next_char()? {
-                return Err(self.error(ErrorCode::ExpectedSomeIdent));
+            match self.next_char()? {
+                Some(b) if b == *c => {}
+                Some(_) => return Err(self.error(ErrorCode::ExpectedSomeIdent)),
+                None => return Err(self.error(ErrorCode::EofWhileParsingValue)),
             }
         }
 
@@ -1122,11 +1124,12 @@ impl<'de, R: Read<'de>> Parser<R> {
     fn parse_num_literal(&mut self, radix: u8, pos: bool) -> Result<Number> {
         let r = u64::from(radix);
         // There needs to be a leading digit (R7RS 7.1)
-        let first_digit = match self.next_char_or_null()? {
-            c @ b'0'..=b'9' => c - b'0',
-            c @ b'a'..=b'f' if radix > 10 => 10 + (c - b'a'),
-            c @ b'A'..=b'F' if radix > 10 => 10 + (c - b'A'),
-            _ => return Err(self.peek_error(ErrorCode::InvalidNumber)),
+        let first_digit = match self.next_char()? {
+            Some(c @ b'0'..=b'9') => c - b'0',
+            Some(c @ b'a'..=b'f') if radix > 10 => 10 + (c - b'a'),
+            Some(c @ b'A'..=b'F') if radix > 10 => 10 + (c - b'A'),
+            Some(_) => return Err(self.peek_error(ErrorCode::InvalidNumber)),
+            None => return Err(self.peek_error(ErrorCode::EofWhileParsingValue)),
         };
         if first_digit >= radix {
             return Err(self.peek_error(ErrorCode::InvalidNumber));
@@ -1257,7 +1260,10 @@ impl<'de, R: Read<'de>> Parser<R> {
         }
 
         if !at_least_one_digit {
-            return Err(self.peek_error(ErrorCode::InvalidNumber));
+            return Err(match self.peek()? {
+                Some(_) => self.peek_error(ErrorCode::InvalidNumber),
+                None => self.peek_error(ErrorCode::EofWhileParsingValue),
+            });
         }
 
         match self.peek_or_null()? {
@@ -1287,10 +1293,13 @@ impl<'de, R: Read<'de>> Parser<R> {
         };
 
         // Make sure a digit follows the exponent place.
-        let mut exp = match self.next_char_or_null()? {
-            c @ b'0'..=b'9' => i32::from(c - b'0'),
-            _ => {
+        let mut exp = match self.next_char()? {
+            Some(c @ b'0'..=b'9') => i32::from(c - b'0'),
+            Some(_) => {
                 return Err(self.error(ErrorCode::InvalidNumber));
+            }
+            None => {
+                return Err(self.error(ErrorCode::EofWhileParsingValue));
             }
         };
 
